@@ -25,12 +25,12 @@ func init() {
 				Flavours: []string{"plain", "race", "cover", "386"},
 				Blocks:   16,
 				Procs:    16,
-				Rule: "case = pair (lhs, rhs) of int sequences. Exhaustive: every pair over alphabet 3 x length <= 7 (10,758,400 pairs), alphabet 2 x length <= 9 (1,046,529 pairs) and alphabet 4 x length <= 5 (1,863,225 pairs) in quick; additionally alphabet 2 x length <= 11, alphabet 3 x length <= 8 (96.8 M pairs) and alphabet 5 x length <= 5 in thorough; every pair of windows (prefix/prefix, window/prefix, suffix/prefix) of one shared backing array of up to 9 binary elements (inputs that alias each other); pairs of 4100..11700 elements (length products past 2^24..2^27: a repeated block removed, scattered edits); wrap-around schedules (a larger call, exactly N one-element calls for N around 2^8, 2^9, 2^16, 2^17, then a larger call on unrelated content, all on one P); random pairs of length up to 400 made of long common runs with point mutations, insertions, deletions and block moves over alphabets of 2..50 symbols. " +
+				Rule: "case = pair (lhs, rhs) of int sequences. Exhaustive: every pair over alphabet 3 x length <= 7 (10,758,400 pairs), alphabet 2 x length <= 9 (1,046,529 pairs) and alphabet 4 x length <= 5 (1,863,225 pairs) in quick; additionally alphabet 2 x length <= 11, alphabet 3 x length <= 8 (96.8 M pairs) and alphabet 5 x length <= 5 in thorough; every pair of windows (prefix/prefix, window/prefix, suffix/prefix) of one shared backing array of up to 9 binary elements (inputs that alias each other); pairs of 4100..11700 elements (length products past 2^24..2^27: a repeated block removed, scattered edits); two pairs of 65545 and 66000 pairwise different elements with fresh values substituted at 8 and 66 positions (common subsequence longer than 2^16, optimum known by construction); wrap-around schedules (a larger call, exactly N one-element calls for N around 2^8, 2^9, 2^16, 2^17, then a larger call on unrelated content, all on one P); random pairs of length up to 400 made of long common runs with point mutations, insertions, deletions and block moves over alphabets of 2..50 symbols. " +
 					"Per pair: interpreter (each edit's X and Y are the spans of lhs and rhs at the current offsets, by value and by address; lhs consumed and rhs produced exactly), emitted element count == LCS length from an independent O(mn) table, canonical form (no empty edit, adjacent edits differ in kind, no Drop next to Copy, only the four opcodes, empty iff equal), inputs unmodified; a sample of returned scripts is kept and verified again after later calls; 8 goroutines call EditScript concurrently on unshared inputs (plain and under -race); interleaved with all of it, calls that fail half-way and are recovered by the caller (uncomparable interface elements compared with ==, a panicking equality function), so that every verified call also runs right after a failed one. " +
 					"Element types whose == is not reflexive (floats holding NaN, structs and arrays of them; +0 and -0): two unrelated slices, the same slice as both arguments, windows of one backing array; the result must be the one the int instantiation gives on codes that are equal exactly where the elements are ==. " +
 					"Pairs that differ by exactly one substitution, insertion or deletion at the first, second, middle, last-but-one and last position, for 39 lengths from 1 to 5000. " +
 					"distinct = the pair itself (enumerated without repetition; random pairs by hash); non-trivial = the pair has more than one optimal alignment (counted by a separate DP)",
-				Required:     []string{"pairs", "ambiguous_pairs", "replace_edits", "equal_pairs", "random_pairs", "aliased_pairs", "concurrent_calls", "kept_results_rechecked", "interface_element_cases", "non_reflexive_element_cases", "single_point_edit_pairs", "abandoned_calls", "very_large_pairs", "wraparound_schedules", "subsequence_boundary_pairs"},
+				Required:     []string{"pairs", "ambiguous_pairs", "replace_edits", "equal_pairs", "random_pairs", "aliased_pairs", "concurrent_calls", "kept_results_rechecked", "interface_element_cases", "non_reflexive_element_cases", "single_point_edit_pairs", "abandoned_calls", "very_large_pairs", "wraparound_schedules", "subsequence_boundary_pairs", "common_subsequence_beyond_2_to_the_16_pairs"},
 				Exhaustive:   true,
 				Assumptions:  []string{"the O(mn) LCS table is the reference for minimality"},
 				CoverPkgs:    []string{"github.com/creachadair/mds/slice"},
@@ -103,6 +103,12 @@ func c11verify(lhs, rhs []int, es []slice.Edit[int]) (problem string, nrep int) 
 
 func c11verifyW(lhs, rhs []int, es []slice.Edit[int]) (problem string, nrep int, ways int64) {
 	want, ways := lcsTable(lhs, rhs)
+	return c11verifyCore(lhs, rhs, es, want, ways)
+}
+
+// c11verifyCore checks a script against the inputs and a known length of a
+// longest common subsequence (from lcsTable, or known by construction).
+func c11verifyCore(lhs, rhs []int, es []slice.Edit[int], want int, ways int64) (problem string, nrep int, _ int64) {
 	equal := equalInts(lhs, rhs)
 	if equal != (len(es) == 0) {
 		return fmt.Sprintf("script empty=%v but inputs equal=%v", len(es) == 0, equal), 0, ways
@@ -536,6 +542,43 @@ func runC11(c *fw.Ctx) {
 		if a {
 			c.Add("ambiguous_pairs", 1)
 		}
+	}
+	// pairs whose common subsequence is longer than 2^16 (seeded change C11w:
+	// a 16-bit path length): pairwise different elements with a fresh value
+	// substituted at a few positions, so the optimum is known by construction
+	// (n minus the number of substitutions) and no quadratic table is needed
+	for k := 0; k < 2; k++ {
+		if (k*7+5)%c.NBlocks != c.Block || !c.Begin(idx+952000+k) {
+			continue
+		}
+		n := []int{65536 + 9, 66000}[k]
+		step := []int{8191, 1000}[k]
+		lhs, rhs := make([]int, n), make([]int, n)
+		for i := range lhs {
+			lhs[i] = i
+			rhs[i] = i
+		}
+		subs := 0
+		for i := step / 2; i < n; i += step {
+			rhs[i] = n + i
+			subs++
+		}
+		var es []slice.Edit[int]
+		in := map[string]any{"lhs": fmt.Sprintf("0..%d", n-1), "rhs": fmt.Sprintf("the same with n+i at every position i = %d + j*%d", step/2, step)}
+		ok, pv, stack := fw.Try(func() { es = slice.EditScript(lhs, rhs) })
+		c.Step()
+		if !ok {
+			c.FailKind("panic", in, "EditScript panicked: %v\n%s", pv, stack)
+			continue
+		}
+		if pr, _, _ := c11verifyCore(lhs, rhs, es, n-subs, 1); pr != "" {
+			if len(pr) > 400 {
+				pr = pr[:400] + "..."
+			}
+			c.Fail(in, "%d pairwise different elements, %d substituted: %s", n, subs, pr)
+		}
+		c.Add("pairs", 1)
+		c.Add("common_subsequence_beyond_2_to_the_16_pairs", 1)
 	}
 	// 32-bit build, thorough tier: a pair whose length product passes 2^31 (46341 x 46341)
 	if c.Flavour == "386" && c.Thorough() && c.Block == 0 && c.Begin(idx+955000) {
